@@ -89,11 +89,40 @@ let wres_class = function
 
 let dec_opt v = match as_int v with 0 -> OError | 1 -> OIgnore | _ -> OBad
 
+(* Cross-check of extraction: with ORACLE_DUMP=<file> the values the EXTRACTED model computes are
+   appended to that file, one line per record, before any comparison with the implementation;
+   bin/coqreplay_c18.py recomputes them inside Coq with vm_compute.
+   kind 1, per tuple: class of validate_tuple, class of validate_write, valid_for_write, valid_ctx_tuple,
+                      allowed_raw, lax_cond_raw, lax_nocond_raw
+   kind 2: class of write_cmd, number of datastore calls, a DsWrite among them, size and a checksum of
+           the store afterwards *)
+let dump_chan = match Sys.getenv_opt "ORACLE_DUMP" with
+  | Some p when p <> "" -> Some (open_out_gen [Open_append; Open_creat] 0o644 p)
+  | _ -> None
+let dump_left = ref 800      (* only the first records are replayed *)
+let b01 b = if b then 1 else 0
+let store_sum (s : store) =
+  List.fold_left (fun a (k, c) -> a + List.length k.k_obj + List.length k.k_rel + List.length k.k_user + List.length c) 0 s
+
 let f id vs =
   match vs with
   | [I "1"; env; model; cds; limit; _validated; tuples] ->
     let e = dec_env env and m = dec_model model and cds = dec_cdefs cds in
     let limit = n_of_int (as_int limit) in
+    (match dump_chan with
+     | Some ch when !dump_left > 0 ->
+       decr dump_left;
+       output_string ch id;
+       List.iter (fun tv -> match as_list tv with
+         | [t; _] ->
+           let w = dec_rtuple t in
+           Printf.fprintf ch " %d %d %d %d %d %d %d"
+             (class_of (validate_tuple e m cds w)) (class_of (validate_write e m cds limit w))
+             (b01 (valid_for_write e m cds limit w)) (b01 (valid_ctx_tuple e m cds w))
+             (b01 (allowed_raw e m cds limit w)) (b01 (lax_cond_raw e m cds limit w)) (b01 (lax_nocond_raw e m cds limit w))
+         | _ -> failwith "tuple entry") (as_list tuples);
+       output_char ch '\n'; flush ch
+     | _ -> ());
     let model_hyps = env_wf e && restr_wf m && tupleset_direct m && cds_wf cds in
     let props = ref [] and diffs = ref [] and knowns = ref [] in
     let known flag txt = if not (List.mem_assoc flag !knowns) then knowns := (flag, txt) :: !knowns in
@@ -170,7 +199,14 @@ let f id vs =
     let deletes = List.map (fun x -> match as_list x with
       | [o; r; u] -> { k_obj = as_cbytes o; k_rel = as_cbytes r; k_user = as_cbytes u } | _ -> failwith "delete") (as_list deletes) in
     let writes = List.map dec_rtuple (as_list writes) in
-    let ((r, _calls), s') = write_cmd e m cds limit maxw (dec_opt od) (dec_opt om) before deletes writes in
+    let ((r, calls), s') = write_cmd e m cds limit maxw (dec_opt od) (dec_opt om) before deletes writes in
+    (match dump_chan with
+     | Some ch when !dump_left > 0 ->
+       decr dump_left;
+       Printf.fprintf ch "%s %d %d %d %d %d\n" id (wres_class r) (List.length calls)
+         (b01 (List.exists (function DsWrite _ -> true | DsReadModel -> false) calls)) (List.length s') (store_sum s');
+       flush ch
+     | _ -> ());
     let cl = as_int cl in
     let what = Printf.sprintf "writes=[%s] deletes=%d" (String.concat "; " (List.map show writes)) (List.length deletes) in
     let hyps = env_wf e && restr_wf m && tupleset_direct m && cds_wf cds in
